@@ -65,7 +65,8 @@ theorem postAcquire_free {w : World} {o : Nat} {m : MutexSt}
           threads := { w.exec.threads with threads :=
             (w.exec.threads.threads.mapIdx fun i th =>
               if i = w.tid then { th with causality := th.causality.join m.sync.hb }
-              else if th.operation.any (fun op => op.obj == o) then th.setBlocked else th) } } },
+              else if th.operation.any (fun op => op.obj == o && op.blocking) then th.setBlocked
+              else th) } } },
        true) := by
   unfold World.postAcquire
   simp only [getMutex_of h, hl, bind, Except.bind, pure, Except.pure, Option.isSome_none,
